@@ -947,10 +947,10 @@ def r18_1(cx):
     for p, b in sorted(cx.facts.bodies.items()):
         if not re.search(STREAM_FNS, p):
             continue
-        for bi, t in b.calls(r'^std::io::(Write::write$|Write::write_vectored$|Read::read_to_end$|Read::read_exact$)|core::result::Result::(ok|unwrap_or|unwrap_or_default|unwrap_or_else|is_ok|is_err)$'):
+        for bi, t in b.calls(r'^std::io::(Write::write$|Write::write_vectored$|Read::read_to_end$|Read::read_to_string$|Read::read_exact$|copy$|util::copy$|copy::copy$)|^std::io::copy|core::result::Result::(ok|unwrap_or|unwrap_or_default|unwrap_or_else|is_ok|is_err)$'):
             o = operand_ty(b, t['args'][0]) if t['args'] else ''
             nm = short(t['callee']['path'])
-            if 'Write::write' in nm or 'Read::' in nm or 'std::io::Error' in o:
+            if 'Write::write' in nm or 'Read::' in nm or 'std::io::Error' in o or 'io::copy' in nm or nm.endswith('::copy'):
                 cx.bad('R18.1', b, 'lossy:' + nm.rsplit('::', 1)[-1], 'lossy io API %s in the stream path (partial write / discarded error)' % nm, line_of(b, bi))
 
 
